@@ -86,8 +86,9 @@ def run(tier, seed, replay):
         for k in range(1, len(changed) + 1):       # act on the k-th REWRITTEN file
             for pi, pt in enumerate(POINTS):
                 for mode in ("abort", "fail"):
-                    cases.append({"texts": texts, "k": k, "point": pt, "n_complete": pi, "mode": mode})
-        cases.append({"texts": texts, "k": 0, "point": None, "n_complete": 3, "mode": "none"})
+                    # operations of the model completed when the point is reached: [remove tmp; write tmp; rename; rename]
+                    cases.append({"texts": texts, "k": k, "point": pt, "n_complete": 0 if pi == 0 else pi + 1, "mode": mode})
+        cases.append({"texts": texts, "k": 0, "point": None, "n_complete": 4, "mode": "none"})
     # model side: state of the target file after n complete operations
     exprs = []
     for c in cases:
@@ -154,7 +155,12 @@ def run(tier, seed, replay):
         shutil.rmtree(d, ignore_errors=True)
     # --- real failures and stale siblings: FILE.bk / FILE.tmp already there as a non-empty directory (the rename / the
     # write then really fails), or as a stale file longer / shorter than the new text; odd file names
-    pre_states = ["bk_dir", "tmp_dir", "stale_tmp_long", "stale_tmp_short", "stale_bk", "plain"]
+    pre_states = ["bk_dir", "tmp_dir", "stale_tmp_long", "stale_tmp_short", "stale_bk", "plain",
+                  # a backup left by an EARLIER run (the file was edited since) together with a failure of this run:
+                  # a real one (FILE.tmp is a directory) or an injected one / an abort at each named point
+                  "stale_bk+tmp_dir", "stale_tmp_long+bk_dir",
+                  # stale siblings that are symbolic links: to the file itself, to another file (which must stay untouched)
+                  "tmp_symlink_self", "tmp_symlink_other", "bk_symlink_other"] + ["stale_bk+%s:%s" % (m, pt) for pt in POINTS for m in ("fail", "abort")]
     names = ["a.rs", "noext", "m.d.rs", "b.tmp", "c.bk"]
     n_pre = 0
     for nm in names:
@@ -181,18 +187,63 @@ def run(tier, seed, replay):
                     open(tmp_p, "w").write("x")
                 elif ps == "stale_bk":
                     open(bk_p, "w").write("// old backup\n")
+                elif ps == "stale_bk+tmp_dir":
+                    open(bk_p, "w").write("// old backup\n")
+                    os.makedirs(os.path.join(tmp_p, "x"))
+                elif ps == "stale_tmp_long+bk_dir":
+                    open(tmp_p, "w").write("// stale\n" * 40)
+                    os.makedirs(os.path.join(bk_p, "x"))
+                elif ps == "tmp_symlink_self":
+                    os.symlink(nm, tmp_p)
+                elif ps in ("tmp_symlink_other", "bk_symlink_other"):
+                    open(os.path.join(d, "other.txt"), "w").write("precious\n")
+                    os.symlink("other.txt", tmp_p if ps.startswith("tmp") else bk_p)
+                elif ps.startswith("stale_bk+"):
+                    open(bk_p, "w").write("// old backup\n")
             elif ps != "plain":
                 shutil.rmtree(d, ignore_errors=True)
                 continue
             n_pre += 1
-            rc, o, e = rustfmt(["--backup", nm], d)
+            penv = {}
+            if ":" in ps:
+                m, pt = ps.split("+", 1)[1].split(":", 1)
+                penv["RUSTFMT_VERIF_CRASH"] = ("fail:%s" % pt) if m == "fail" else pt
+            rc, o, e = rustfmt(["--backup", nm], d, env=penv)
             listing = {}
             for x in sorted(os.listdir(d)):
                 px = os.path.join(d, x)
-                listing[x] = open(px, newline="", encoding="utf-8").read() if os.path.isfile(px) else "<dir>"
+                try:
+                    listing[x] = open(px, newline="", encoding="utf-8").read() if os.path.isfile(px) else ("<dir>" if os.path.isdir(px) else "<dangling link>")
+                except OSError:
+                    listing[x] = "<unreadable: link loop>"
             case = {"name": nm, "pre_state": ps, "rc": rc, "stderr": e[-300:], "after": listing}
             cur = listing.get(nm)
             holders = [x for x, v in listing.items() if v == t]
+            PRE_K = {"plain": (0, 0), "bk_dir": (0, 4), "tmp_dir": (4, 0), "stale_tmp_long": (1, 0), "stale_tmp_short": (1, 0), "stale_bk": (0, 1),
+                     "stale_bk+tmp_dir": (4, 1), "stale_tmp_long+bk_dir": (1, 4), "tmp_symlink_self": (2, 0), "tmp_symlink_other": (3, 0), "bk_symlink_other": (0, 3)}
+            if ps in PRE_K and not collide and model is not None:
+                # the same pre-state in the model (files / links / directories): did the run succeed, and what does each of
+                # FILE, FILE.tmp, FILE.bk and the other file read as afterwards (O original, F formatted, S stale text, P the other file's)
+                def sym(v):
+                    return {t: "O", fmt_of[t]: "F", "precious\n": "P", None: None, "<dir>": None, "<dangling link>": None, "<unreadable: link loop>": None}.get(v, "S")
+                try:
+                    mv = common.run_coq_cases("From V Require Import Base.Text C20.Model C20.Run.\nOpen Scope N_scope.", "",
+                                              ["run_pre [79] [70] %d %d" % PRE_K[ps]], "c20pre")[0]
+                    mok, (mf, mt, mb), mo = mv
+
+                    def msym(x):
+                        if isinstance(x, coqterm.Ctor) and x.name == "Some":
+                            return {(79,): "O", (70,): "F", (120,): "S", (112,): "P"}.get(tuple(coqterm.plain(x.args[0])), "?")
+                        return None
+                    got = [rc == 0, sym(listing.get(nm)), sym(listing.get(stem + ".tmp")), sym(listing.get(stem + ".bk")), sym(listing.get("other.txt")) if "other.txt" in listing else "P"]
+                    wantm = [bool(mok), msym(mf), msym(mt), msym(mb), msym(mo)]
+                    if got != wantm:
+                        disagreements.append(({"pre_state": ps, "name": nm}, {"impl": got, "model": wantm, "listing": listing}))
+                except Exception as ex:
+                    log("C20: pre-state model evaluation failed: %s" % str(ex)[-300:])
+            if "other.txt" in listing and listing["other.txt"] != "precious\n":
+                if rep.violation("other_path_touched", {"case": case}, "rustfmt --backup %s with pre-state %s wrote through a symbolic link into another file" % (nm, ps)):
+                    found += 1
             if not holders:
                 if rep.violation("original_lost", {"case": case}, "rustfmt --backup %s with pre-state %s (exit %d): the original text is in no file of the directory any more" % (nm, ps, rc)):
                     found += 1
@@ -211,10 +262,21 @@ def run(tier, seed, replay):
             if rc == 0 and (cur != fmt_of[t] or (not collide and listing.get(stem + ".bk") != t)):
                 if rep.violation("success_post", {"case": case}, "rustfmt --backup %s with pre-state %s exits 0 but the file / its .bk are not formatted / original" % (nm, ps)):
                     found += 1
-            if ps in ("bk_dir", "tmp_dir") and rc != 1:
+            if ps in ("bk_dir", "tmp_dir", "stale_bk+tmp_dir", "stale_tmp_long+bk_dir") and rc != 1:
                 if rep.violation("fault_exit", {"case": case}, "rustfmt --backup %s: the %s cannot succeed, exit status %d, expected 1" % (nm, "rename to .bk" if ps == "bk_dir" else "write of .tmp", rc)):
                     found += 1
             shutil.rmtree(d, ignore_errors=True)
+    # --- one file reached under two spellings of its path (a recorded defect of the module resolver, C13): it is emitted twice
+    d = os.path.join(base, "two_spellings")
+    os.makedirs(os.path.join(d, "sub"))
+    open(os.path.join(d, "lib.rs"), "w").write('#[path = "a.rs"]\nmod a;\n#[path = "sub/../a.rs"]\nmod b;\n')
+    open(os.path.join(d, "a.rs"), "w").write(SRC[0])
+    rc, o, e = rustfmt(["--backup", "lib.rs"], d)
+    listing = {x: open(os.path.join(d, x)).read() for x in sorted(os.listdir(d)) if os.path.isfile(os.path.join(d, x))}
+    if SRC[0] not in listing.values():
+        if rep.violation("original_lost_two_spellings", {"case": {"rc": rc, "after": listing}}, "a.rs reached as a.rs and as sub/../a.rs: after rustfmt --backup lib.rs (exit %d) the original of a.rs is in no file" % rc):
+            found += 1
+    shutil.rmtree(d, ignore_errors=True)
     rep.coverage["pre_state_runs"] = n_pre
     # --- order of the real system calls (strace) against the model's operation list
     strace_ok = None
@@ -236,7 +298,7 @@ def run(tier, seed, replay):
             m = re.search(r'unlink(?:at)?\((?:[^,"]+, )?"([^"]+)"', line)
             if m and re.search(r"a\.(rs|tmp|bk)$", m.group(1)):
                 seq.append(["unlink", os.path.basename(m.group(1))])
-        want = [["write", "a.tmp"], ["rename", "a.rs", "a.bk"], ["rename", "a.tmp", "a.rs"]]
+        want = [["unlink", "a.tmp"], ["write", "a.tmp"], ["rename", "a.rs", "a.bk"], ["rename", "a.tmp", "a.rs"]]
         if "strace: " in err and not seq and "ptrace" in err.lower():
             strace_ok = None
         else:
@@ -245,7 +307,7 @@ def run(tier, seed, replay):
                 disagreements.append(({"strace": True}, {"impl": seq, "model": want}))
         if model is not None:
             names = {1: "a.rs", 2: "a.tmp", 3: "a.bk"}
-            mops = [["write", names[a]] if k == 0 else ["rename", names[a], names[b]] for (k, a, b) in model[0][1]]
+            mops = [["write", names[a]] if k == 0 else (["unlink", names[a]] if k == 2 else ["rename", names[a], names[b]]) for (k, a, b) in model[0][1]]
             if mops != want:
                 disagreements.append(({"model_ops": True}, {"model": mops, "expected": want}))
     except (OSError, subprocess.TimeoutExpired) as ex:
@@ -266,7 +328,7 @@ def run(tier, seed, replay):
         "evaluations": len(cases),
         "distinct_nontrivial": len(nontrivial),
         "exhaustive": True,
-        "rule": "every crash point (4) x {abort, injected I/O error} x every position of the rewritten file in a 3-file run, plus the uninterrupted run, for %d sets of source files; real `rustfmt --backup` processes; directory contents compared with the model state; plus runs where FILE.bk / FILE.tmp already exist as a non-empty directory (real failure of the rename / write) or as stale files, and file names without extension, with two dots, ending in .tmp / .bk; non-trivial = a file is actually being rewritten when the fault hits" % nsets,
+        "rule": "every crash point (4) x {abort, injected I/O error} x every position of the rewritten file in a 3-file run, plus the uninterrupted run, for %d sets of source files; real `rustfmt --backup` processes; directory contents compared with the model state; plus runs where FILE.bk / FILE.tmp already exist as a non-empty directory (real failure of the rename / write) or as stale files (alone, and a stale FILE.bk combined with a real or injected failure or an abort at each named point of this run; FILE.tmp / FILE.bk as symbolic links to the file itself or to another file), and file names without extension, with two dots, ending in .tmp / .bk; non-trivial = a file is actually being rewritten when the fault hits" % nsets,
         "samples": show[:3] + show[-1:],
         "correspondence_disagreements": len(disagreements),
         "traces_validated_against_impl": len(cases),
